@@ -179,6 +179,11 @@ def gen_pool(master, size):
             if json.dumps(a, sort_keys=False) != json.dumps(d, sort_keys=False):  # not `a != d`: 2 == 2.0 == True in Python
                 alias_count[kind] = alias_count.get(kind, 0) + 1
                 pool.append({"d": a, "ctx": ctx, "alias_of": base, "alias_kind": kind})
+        if d["op"].startswith(("solve", "matches")) and "kw-singleton-list" in kinds and len(pool) < size and r.random() < 0.6:
+            # the solve helpers take the same size keywords as the operations but have no compile cache of their own: keep the
+            # "3 vs [3]" pair (same bytes, different meaning) frequent for them
+            pool.append({"d": make_alias(r, d, "kw-singleton-list"), "ctx": ctx, "alias_of": base, "alias_kind": "kw-singleton-list"})
+            alias_count["kw-singleton-list"] = alias_count.get("kw-singleton-list", 0) + 1
     return pool
 
 
